@@ -871,30 +871,54 @@ func (e *c17env) carryOver() {
 		info := ud.Pkg.TypesInfo
 		params := ud.params(info) // name, etag, desc
 		descT := TVar(params[2])
-		var rw *ast.CallExpr
+		var rws []*ast.CallExpr
+		// the stored description and the error of reading it, by role: the results of readDescription
+		var oldObj, errObj types.Object
 		ast.Inspect(ud.Body(), func(n ast.Node) bool {
 			if call, ok := n.(*ast.CallExpr); ok && fnIs(calleeOf(&CallSite{Call: call, In: ud}), "group", "", "rewriteDescriptionFile") {
-				rw = call
+				rws = append(rws, call)
+			}
+			if as, ok := n.(*ast.AssignStmt); ok && len(as.Lhs) == 2 && len(as.Rhs) == 1 {
+				if call, ok := unparen(as.Rhs[0]).(*ast.CallExpr); ok && fnIs(calleeOf(&CallSite{Call: call, In: ud}), "group", "", "readDescription") {
+					if id, ok := as.Lhs[0].(*ast.Ident); ok {
+						oldObj = info.ObjectOf(id)
+					}
+					if id, ok := as.Lhs[1].(*ast.Ident); ok {
+						errObj = info.ObjectOf(id)
+					}
+				}
 			}
 			return true
 		})
-		if rw == nil {
+		if len(rws) == 0 {
 			c.Bad("R17.5", "UpdateDescription: write", ud.Pos(), "no call to rewriteDescriptionFile")
-		} else {
+		}
+		var miss, missCopy []string
+		var at token.Pos
+		for _, rw := range rws {
+			at = rw.Pos()
 			st, _ := ff.At(rw)
-			var miss, missCopy []string
 			arg := unparen(rw.Args[1])
 			if u, ok := arg.(*ast.UnaryExpr); ok {
 				arg = u.X
 			}
 			newT := ff.term(arg)
-			oldObj := ud.localVar("old")
+			// nothing is stored when the read failed (the group is being created)
+			noOld := false
+			if st != nil {
+				if oldObj != nil && st.HasFact(mkFact(true, "eq", TVar(oldObj), TNil())) {
+					noOld = true
+				}
+				if errObj != nil && st.HasFact(mkFact(false, "eq", TVar(errObj), TNil())) {
+					noOld = true
+				}
+			}
 			for _, sf := range secrets {
 				if reach, _ := ff.ReachableNotRefuting(rw, factsConj(mkFact(false, "eq", TField(descT, sf), TNil()))); reach {
 					miss = append(miss, sf.Name())
 				}
 				// old != nil => newdesc.F == old.F
-				okc := false
+				okc := noOld
 				if st != nil && newT != nil && oldObj != nil {
 					want := mkFact(true, "eq", TField(newT, sf), TField(TVar(oldObj), sf))
 					if st.HasFact(want) {
@@ -910,9 +934,11 @@ func (e *c17env) carryOver() {
 					missCopy = append(missCopy, sf.Name())
 				}
 			}
-			c.Check(len(miss) == 0, "R17.5", "UpdateDescription: refuses secrets in the input", rw.Pos(),
+		}
+		if len(rws) > 0 {
+			c.Check(len(miss) == 0, "R17.5", "UpdateDescription: refuses secrets in the input", at,
 				"the write is dominated by desc.Users == nil, desc.WildcardUser == nil, desc.AuthKeys == nil", "input with "+strings.Join(miss, ",")+" set reaches the write: the API can replace stored secrets")
-			c.Check(len(missCopy) == 0, "R17.5", "UpdateDescription: carries the stored secrets over", rw.Pos(),
+			c.Check(len(missCopy) == 0, "R17.5", "UpdateDescription: carries the stored secrets over", at,
 				"newdesc.{Users,WildcardUser,AuthKeys} = old.{...} whenever the group existed", "updating a group drops its stored "+strings.Join(missCopy, ","))
 		}
 	}
